@@ -10,7 +10,9 @@ EXTENDS Naturals, Sequences, FiniteSets, TLC
 CONSTANTS Measured       \* RTMR indices the event log has events for (the sample log: {0, 1, 2})
 
 VFaults == {"none", "qsigOtherKey", "poolB", "wrongCN", "bindWrongHash", "qeSignerForeign", "revokedLeaf"}
-Policies == {"ok", "nonceDiffers", "mrTdDiffers", "rtmrExpectDiffers", "minQeAbove"}
+Policies == {"ok", "nonceDiffers", "mrTdDiffers", "rtmrExpectDiffers", "minQeAbove", "minTeeLaterAbove"}
+\*   minTeeLaterAbove: the TEE_TCB_SVN minimum is below the quote in an earlier component and above it in a later one
+Priors == {"none", "sameOpts"}   \* sameOpts: the same options value served a successful call on the genuine quote just before
 Flips == {"none", "r0", "r1", "r2", "r3"}       \* one bit of that register changed in an otherwise valid, correctly re-signed quote
 Levels == {0, 1, 2}
 Loaders == {"grub", "unsupported"}                \* extract.Opts.Loader: GRUB (TdxDefaultOpts) or the zero value
@@ -25,16 +27,18 @@ ReplayOk(f) == f = "none" \/ RegOf(f) \notin Measured
 \* C18
 MayReturnState(v, p, f, lvl, cf) == VerifyOk(v, lvl, cf) /\ PolicyOk(p) /\ ReplayOk(f)     \* whatever the loader option
 
-VARIABLES v, p, f, lvl, ld, cf, pc, result
-vars == <<v, p, f, lvl, ld, cf, pc, result>>
+VARIABLES v, p, f, lvl, ld, cf, prior, pc, result
+vars == <<v, p, f, lvl, ld, cf, prior, pc, result>>
 Init == /\ v \in VFaults /\ p \in Policies /\ f \in Flips /\ lvl \in Levels /\ ld \in Loaders /\ cf \in CrlFetches
-        /\ (cf # "ok" => lvl = 2) /\ pc = "verify" /\ result = "none"
+        /\ prior \in Priors /\ (cf # "ok" => lvl = 2) /\ pc = (IF prior = "none" THEN "verify" ELSE "prior") /\ result = "none"
+\* the earlier call leaves nothing behind in the options value: each call extracts its own register bank
+PriorCall == pc = "prior" /\ pc' = "verify" /\ UNCHANGED <<v, p, f, lvl, ld, cf, prior, result>>
 Fail == result' = "error" /\ pc' = "done"
-VerifyGate == /\ pc = "verify" /\ (IF VerifyOk(v, lvl, cf) THEN pc' = "policy" /\ result' = result ELSE Fail) /\ UNCHANGED <<v, p, f, lvl, ld, cf>>
-PolicyGate == /\ pc = "policy" /\ (IF PolicyOk(p) THEN pc' = "bank" /\ result' = result ELSE Fail) /\ UNCHANGED <<v, p, f, lvl, ld, cf>>
-ExtractBank == /\ pc = "bank" /\ pc' = "replay" /\ UNCHANGED <<v, p, f, lvl, ld, cf, result>>     \* RTMR i -> register i, all four registers
-Replay == /\ pc = "replay" /\ (IF ReplayOk(f) THEN result' = "state" /\ pc' = "done" ELSE Fail) /\ UNCHANGED <<v, p, f, lvl, ld, cf>>
-Next == VerifyGate \/ PolicyGate \/ ExtractBank \/ Replay
+VerifyGate == /\ pc = "verify" /\ (IF VerifyOk(v, lvl, cf) THEN pc' = "policy" /\ result' = result ELSE Fail) /\ UNCHANGED <<v, p, f, lvl, ld, cf, prior>>
+PolicyGate == /\ pc = "policy" /\ (IF PolicyOk(p) THEN pc' = "bank" /\ result' = result ELSE Fail) /\ UNCHANGED <<v, p, f, lvl, ld, cf, prior>>
+ExtractBank == /\ pc = "bank" /\ pc' = "replay" /\ UNCHANGED <<v, p, f, lvl, ld, cf, prior, result>>     \* RTMR i -> register i, all four registers
+Replay == /\ pc = "replay" /\ (IF ReplayOk(f) THEN result' = "state" /\ pc' = "done" ELSE Fail) /\ UNCHANGED <<v, p, f, lvl, ld, cf, prior>>
+Next == PriorCall \/ VerifyGate \/ PolicyGate \/ ExtractBank \/ Replay
 Spec == Init /\ [][Next]_vars
 
 TypeOK == result \in {"none", "state", "error"}
